@@ -85,7 +85,32 @@ def gen_fn(rng, name, avail, outdim, deg=2, allow_default=True):
     if form == "kwonly":
         form = "def"
         kwonly = rng.randint(1, len(params) - 1) if (not defaults and len(params) >= 2) else 0
-    return dict(name=name, params=params, defaults=defaults, body=body, form=form, kwonly=kwonly)
+    spec = dict(name=name, params=params, defaults=defaults, body=body, form=form, kwonly=kwonly)
+    if allow_default and rng.random() < 0.25:
+        add_state(rng, spec)
+    return spec
+
+
+def add_state(rng, spec):
+    """the function is handed over as a `tp.utils.UserFunction` OBJECT that carries state the user gave it after
+    wrapping: `set_default(a=…)` overriding a declared default, a `partially_evaluate(q=…)` copy that fixes a
+    necessary argument, optionally a deep copy of the result.  `defaults` always holds the EFFECTIVE values."""
+    declared = [d for d in spec["defaults"] if d[0] in ("a", "b", "c", "c0", "c1", "c2")]
+    kind = rng.choice(["set_default", "partial", "partial"]) if declared else "partial"
+    st = dict(kind=kind, deepcopy=rng.random() < 0.3)
+    if kind == "set_default":
+        dn, dv = rng.choice(declared)
+        st["name"] = dn
+        st["declared"] = js(F(dv[0]) + rng.choice([1, 2, -3]))       # what the `def` line says; set_default replaces it
+    else:
+        qn = "q" if spec["name"] != "resid" else "q0"
+        st["name"] = qn
+        spec["params"].insert(len(spec["params"]) - len(spec["defaults"]), qn)     # necessary argument, no declared default
+        spec["defaults"].insert(0, [qn, [js(cc.dy(rng, 1, 6, 2))]])
+        spec["body"][0] = ["+", spec["body"][0], ["*", ["c", js(cc.dy(rng, 1, 4, 1))], ["v", qn, 0]]]
+    spec["state"] = st
+    spec["kwonly"] = 0
+    spec["wrap"] = True
 
 
 def make_defaulted(rng, fn, name):
@@ -93,9 +118,14 @@ def make_defaulted(rng, fn, name):
     dn = [n for n, _ in fn["defaults"]]
     if name in dn:
         return
+    st_ = fn.get("state")
+    if st_ and st_["kind"] == "partial" and [p_ for p_ in fn["params"] if p_ not in dn and p_ != name] == []:
+        return      # partially_evaluate with ALL necessary arguments given evaluates the function: keep one necessary argument
     if name in fn["params"]:
         fn["params"].remove(name)
-    fn["params"].insert(len(fn["params"]) - len(fn["defaults"]), name)
+    st = fn.get("state")
+    npy = len(fn["defaults"]) - (1 if st and st["kind"] == "partial" else 0)      # parameters with a DECLARED default
+    fn["params"].insert(len(fn["params"]) - npy, name)
     fn["defaults"].insert(0, [name, [js(cc.dy(rng, 1, 6, 2))]])
     fn["kwonly"] = 0
     fn["body"][0] = ["+", fn["body"][0], ["*", ["c", js(cc.dy(rng, 1, 4, 1))], ["v", name, 0]]]
@@ -274,7 +304,7 @@ def run_int(case):
 
 
 def lines_int(case, res):
-    if res["errors"] and res["errors"][0][0] == "construct":
+    if res["errors"] and isinstance(res["errors"][0][0], str):   # construction / training start failed: nothing was evaluated
         return []
     lines = []
     for k in range(case["calls"]):
@@ -574,12 +604,29 @@ def build_fn(C, spec, obs_list, ders=(), out_space=None, in_space=None, record_o
             record_out.append(tensor_rows(out))
         return out
     defaults = [(n, float(F(v[0]))) for n, v in spec.get("defaults", [])]
+    st = spec.get("state")
+    if st:
+        # what the `def` line declares: without the partially evaluated argument, with the pre-set_default value
+        defaults = [(n, float(F(st["declared"])) if (st["kind"] == "set_default" and n == st["name"]) else v)
+                    for n, v in defaults if not (st["kind"] == "partial" and n == st["name"])]
     if spec.get("form") == "const":
         fn = torch.tensor([[float(F(b[1])) for b in spec["body"]]], dtype=torch.float64)
     else:
         fn = mk_user_fn(spec["name"], spec["params"], defaults, impl, form=spec.get("form", "def"), kwonly=spec.get("kwonly", 0))
-    if spec.get("wrap"):
+    if spec.get("wrap") or st:
         fn = C["tp"].utils.UserFunction(fn)
+    if st:
+        eff = dict((n, float(F(v[0]))) for n, v in spec["defaults"])[st["name"]]
+        if st["kind"] == "set_default":
+            fn.set_default(**{st["name"]: eff})
+        else:
+            parent = fn
+            fn = parent.partially_evaluate(**{st["name"]: eff})
+            sibling = parent.partially_evaluate(**{st["name"]: eff + 7.0})      # a LATER copy from the same parent must not matter
+            del sibling
+        if st["deepcopy"]:
+            import copy
+            fn = copy.deepcopy(fn)
     return fn
 
 
@@ -727,7 +774,7 @@ def net_tok(net):
 def lines_sm(case, res):
     """one driver line per forward call (the points are those the recording sampler returned)"""
     lines = []
-    if res["errors"] and res["errors"][0][0] == "construct":
+    if res["errors"] and isinstance(res["errors"][0][0], str):   # construction / training start failed: nothing was evaluated
         return lines
     for k in range(case["calls"]):
         p = used_points_of(res, k)
@@ -784,7 +831,7 @@ def pick_points(cands, prev, args=None):
 
 def used_points_of(res, k):
     prev = None
-    for j in range(k + 1):
+    for j in range(min(k + 1, len(res.get("points", [])))):
         args = res["resid_args"][j] if j < len(res.get("resid_args", [])) else None
         prev = pick_points(res["points"][j], prev, args)
     return prev
@@ -886,6 +933,8 @@ def count_shapes(rep, fns):
         rep.count("fn:form=" + ("kwonly" if f.get("kwonly") else f.get("form", "def")))
         if f.get("wrap"):
             rep.count("fn:handed-over-as-UserFunction")
+        if f.get("state"):
+            rep.count("fn:UserFunction-with-state:" + f["state"]["kind"] + ("+deepcopy" if f["state"]["deepcopy"] else ""))
 
 
 def judge_sm(rep, case, res, replies):
@@ -1274,7 +1323,7 @@ def reorder_rows(rec, space):
 
 
 def lines_per(case, res):
-    if res["errors"] and res["errors"][0][0] == "construct":
+    if res["errors"] and isinstance(res["errors"][0][0], str):   # construction / training start failed: nothing was evaluated
         return []
     psp = [[case["pv"], 1]]
     full = psp + case["bspace"]
@@ -1454,9 +1503,24 @@ def gen_don(ctx, rng):
         order = list(range(nconds))
         rng.shuffle(order)
         steps += [[k, j] for j in order]
+    dsub = None
+    if rng.random() < 0.5:
+        # a DeepONetDataCondition on the SAME DeepONet: it feeds its own branch data to the shared branch net; it is
+        # evaluated between the physics conditions (steps [k, "D"])
+        nT = rng.choice([1, 2, 3])
+        dsub = dict(branch=[gen_rows(rng, len(zs), dim_of(fout)) for _ in range(F_)], trunk=gen_rows(rng, nT, dim_of(xspace)),
+                    out=[gen_rows(rng, nT, dim_of(out_space)) for _ in range(F_)], norm=rng.choice([1, 2, "inf"]), root=rng.choice([1, 2]))
+        st2 = []
+        for k_, j_ in steps:
+            st2.append([k_, j_])
+            if rng.random() < 0.5:
+                st2.append([k_, "D"])
+        if not any(j_ == "D" for _, j_ in st2):
+            st2.insert(rng.randint(1, len(st2)), [st2[0][0], "D"])
+        steps = st2
     return dict(kind="don", sv=sv, xspace=xspace, trunk_in=trunk_in, pspace=pspace, fout=fout, fn=fn, out=out_space,
                 nk=nk, zs=zs, W=W, feats=feats, F=F_, calls=calls, psets=psets, subs=subs, steps=steps, keys=keys,
-                mode=mode, startup=gen_startup(rng, 0.3, 0.0))
+                mode=mode, dsub=dsub, startup=gen_startup(rng, 0.3, 0.0))
 
 
 def don_batches(case, steps=None):
@@ -1465,6 +1529,9 @@ def don_batches(case, steps=None):
     cur, draws, out = -1, 0, []
     keys = case.get("keys") or list(range(case["calls"]))
     for k, j in (steps if steps is not None else case["steps"]):
+        if j == "D":
+            out.append(max(draws - 1, 0))       # the data condition does not touch the function set
+            continue
         if keys[k] != cur or (keys[k] is None) != (cur is None):
             cur, draws = keys[k], draws + 1
         out.append(draws - 1)
@@ -1532,9 +1599,31 @@ def run_don(case, only=None):
             return out
         out["construct_points"].append(list(rec.calls))
         conds.append((cond, rec, obs))
+    dcond = None
+    if case.get("dsub") and only is None:
+        ds = case["dsub"]
+        t64 = lambda rows: torch.tensor([[[float(F(v)) for v in r] for r in blk] for blk in rows], dtype=torch.float64)
+        loader = tp.utils.DeepONetDataLoader(t64(ds["branch"]), torch.tensor([[float(F(v)) for v in r] for r in ds["trunk"]], dtype=torch.float64),
+                                             t64(ds["out"]), mk_space(case["fout"]), mk_space(case["xspace"]), mk_space(case["out"]),
+                                             branch_batch_size=case["F"], trunk_batch_size=len(ds["trunk"]), shuffle_branch=False, shuffle_trunk=False)
+        try:
+            dcond = tp.conditions.DeepONetDataCondition(net, loader, ds["norm"], root=float(ds["root"]))
+        except Exception as e:  # noqa
+            out["errors"].append(("construct data condition", classify_exc(e)))
+            return out
     if not do_startup(case, [c[0] for c in conds if c is not None], out):
         return out
     for k, j in case["steps"]:
+        if j == "D":
+            if dcond is not None:
+                st = dict(k=k, j="D", loss=None, error=None, args=None, out=None, pp=None, points=[], batch=len(rec_p.calls))
+                try:
+                    st["loss"] = float(dcond.forward())
+                except Exception as e:  # noqa
+                    st["error"] = classify_exc(e)
+                    out["errors"].append((f"data condition in round {k}", st["error"]))
+                out["steps"].append(st)
+            continue
         if conds[j] is None:
             continue
         cond, rec, obs = conds[j]
@@ -1557,16 +1646,19 @@ def run_don(case, only=None):
         st["batch"] = len(rec_p.calls)           # number of function batches drawn so far
         out["steps"].append(st)
     out["param_draws"] = len(rec_p.calls)
-    out["ran_steps"] = [[k, j] for k, j in case["steps"] if conds[j] is not None]
+    out["ran_steps"] = [[k, j] for k, j in case["steps"] if (j == "D" and dcond is not None) or (j != "D" and conds[j] is not None)]
     return out
 
 
 def lines_don(case, res):
-    if res["errors"] and res["errors"][0][0] == "construct":
+    if res["errors"] and isinstance(res["errors"][0][0], str):   # construction / training start failed: nothing was evaluated
         return []
     net = don_net(case)
     lines = []
     for st in res["steps"]:
+        if st["j"] == "D":
+            lines.append(None)
+            continue
         sub = case["subs"][st["j"]]
         p, pp = pick_points(st["points"], None, st["args"]), st["pp"]
         if p is None or pp is None:
@@ -1608,15 +1700,37 @@ def judge_don(rep, case, res, replies):
     # repeatability: same condition, static input sampler, same function batch in force => same loss
     seen_loss = {}
     for st, b in zip(res["steps"], batch_of):
-        if case["subs"][st["j"]]["static"] and st["loss"] is not None:
+        if st["j"] != "D" and case["subs"][st["j"]]["static"] and st["loss"] is not None:
             prev = seen_loss.setdefault((st["j"], b), st["loss"])
             if prev != st["loss"]:
                 rep.fail(f"PIDeepONetCondition {st['j']} (static input sampler) returned {prev!r} and then {st['loss']!r} although no new "
                          f"input functions were due in between (iteration keys {case.get('keys')})", case)
     net = don_net(case)
     body = [pe_from_json(b) for b in net["body"]]
+    if case.get("dsub"):
+        rep.count("don:with-DeepONetDataCondition-on-the-same-DeepONet")
     first_of_iter = {}
     for si, st in enumerate(res["steps"]):
+        if st["j"] == "D":
+            # exact oracle of the data condition: trunk features · (linear branch of ITS branch data) minus its targets
+            ds = case["dsub"]
+            feats = [pe_from_json(b) for b in case["feats"]]
+            W = [[F(v) for v in r] for r in case["W"]]
+            du, nk, dout = dim_of(case["out"]), case["nk"], dim_of(case["fout"])
+            a = []
+            for f_, blk in enumerate(ds["branch"]):
+                flat = [F(v) for row in blk for v in row]
+                for jx, xrow in enumerate(ds["trunk"]):
+                    env = named_row(case["xspace"], [F(v) for v in xrow])
+                    for c_ in range(du):
+                        y = sum(pe_frac(feats[c_ * nk + k_], env) * sum(flat[i_] * W[i_][c_ * nk + k_] for i_ in range(len(flat))) for k_ in range(nk))
+                        a.append(abs(y - F(ds["out"][f_][jx][c_])))
+            doc = max(a) if ds["norm"] == "inf" else sum(v ** ds["norm"] for v in a) / len(a)
+            docv = float(doc) ** (1.0 / ds["root"]) if ds["root"] != 1 else float(doc)
+            if st["loss"] is None or not close(st["loss"], docv, 1e-9, 0.0):
+                rep.fail(f"DeepONetDataCondition (round {st['k']}, on the DeepONet it shares with the physics conditions) returned {st['loss']!r}; "
+                         f"the stated norm of model minus data is {docv!r}", case, detail=dict(step=si))
+            continue
         sub = case["subs"][st["j"]]
         k = st["k"]
         first_of_iter.setdefault(k, st["j"])
